@@ -72,6 +72,18 @@ def fold_unfold(F, one, S, i) -> list[z3.BoolRef]:  # noqa: N803
     ]
 
 
+def pure(run: Run) -> tuple[bool, str]:
+    """the accessor wrote to no object that existed before the call (the Pair / Pairs it was called on, their children, the
+    rule objects): what a second call - or another accessor - sees does not depend on this one (round-6 seed C06d cached a
+    half-finished traversal on the Pairs object)"""
+    for oid, f in run.all_writes:
+        o = run.heap.objs.get(oid)
+        if o is None or o.get("$fresh"):
+            continue
+        return False, f"write to pre-existing object #{oid} ({o.get('$cls')}).{f}"
+    return True, ""
+
+
 class PairModel(FunctionSpec):
     yield_kind = "token"
 
@@ -137,6 +149,8 @@ class PairTokens(PairModel):
         return {0: Loop(inv, facts=facts, modifies=modifies)}
 
     def post(self, run: Run, pre: Any, out: Any) -> None:
+        ok_, why_ = pure(run)
+        run.oblige("frame.pure", ok_, note=why_)
         for f in toks_unfold(pre["p"]):
             run.assume(f)
         t, _ = run.as_seq(out, None, "token")
@@ -170,6 +184,8 @@ class PairsTokens(PairModel):
         return {0: Loop(inv, facts=facts, modifies=modifies)}
 
     def post(self, run: Run, pre: Any, out: Any) -> None:
+        ok_, why_ = pure(run)
+        run.oblige("frame.pure", ok_, note=why_)
         t, _ = run.as_seq(out, None, "token")
         run.oblige("result", t == ft(pre["S"]))
 
@@ -227,6 +243,8 @@ class FlattenInner(PairModel):
         return {0: Loop(inv, facts=facts, modifies=modifies)}
 
     def post(self, run: Run, pre: Any, out: Any) -> None:
+        ok_, why_ = pure(run)
+        run.oblige("frame.pure", ok_, note=why_)
         p = pre["p"]
         run.assume(flat(p) == z3.Concat(z3.Unit(p), ff(p_children(p))))
         t, _ = run.as_seq(out, None, "pair")
@@ -267,6 +285,8 @@ class PairsFlatten(PairModel):
         return {0: Loop(inv, facts=facts, modifies=modifies)}
 
     def post(self, run: Run, pre: Any, out: Any) -> None:
+        ok_, why_ = pure(run)
+        run.oblige("frame.pure", ok_, note=why_)
         t, _ = run.as_seq(out, None, "pair")
         run.oblige("result", t == ff(pre["S"]))
 
@@ -365,6 +385,19 @@ def tree_facts() -> dict:  # noqa: C901, PLR0912, PLR0915
             if r:
                 return r
             pos = p.end
+        # the FIRST traversals of this object are abandoned / stop early (round-6 seed C06d remembered a half-finished walk)
+        it = pairs.flatten()
+        next(it, None)
+        next(it, None)
+        del it
+        pairs.find_first_tagged("no-such-tag-1") if len(pairs) and pairs[0].children else None
+        for p0 in pairs.flatten():
+            if p0.tag:
+                pairs.find_first_tagged(p0.tag)
+                break
+        it = pairs.tokens()
+        next(it, None)
+        del it
         toks_ = list(pairs.tokens())
         stack, last = [], start_pos
         for t in toks_:
@@ -381,6 +414,29 @@ def tree_facts() -> dict:  # noqa: C901, PLR0912, PLR0915
         fl = list(pairs.flatten())
         if [(p.name, p.start) for p in fl] != [(t.rule.name, t.pos) for t in toks_ if isinstance(t, Start)]:
             return "flatten() is not the pre-order of tokens()"
+        # accessors are pure: an abandoned traversal, a search that stops early or a second call changes nothing
+        it = pairs.flatten()
+        next(it, None)
+        del it
+        for tg in sorted({p.tag for p in fl if p.tag})[:2] + ["no-such-tag"]:
+            pairs.find_first_tagged(tg)
+            next(iter(pairs.find_tagged(tg)), None) if hasattr(pairs, "find_tagged") else None
+        it = pairs.tokens()
+        next(it, None)
+        del it
+        if [id(p) for p in pairs.flatten()] != [id(p) for p in fl] or [(type(t), t.rule.name, t.pos) for t in pairs.tokens()] != [(type(t), t.rule.name, t.pos) for t in toks_]:
+            return "flatten() / tokens() differ after an abandoned traversal or an early-stopping search"
+        for p in fl[:3]:
+            if [id(c) for c in p.inner()] != [id(c) for c in p.children] or [id(c) for c in p] != [id(c) for c in p.children]:
+                return f"inner() / iteration of {p.name} are not its children"
+            st_ = p.stream()
+            seen_ = []
+            while (nx := st_.next()) is not None:
+                seen_.append(id(nx))
+                if len(seen_) > len(p.children) + 1:
+                    break
+            if seen_ != [id(c) for c in p.children]:
+                return f"stream() of {p.name} does not step through its children"
         try:
             d = pairs.dump()
             s1 = pairs.dumps()
